@@ -14,6 +14,8 @@ use crate::node::verif_probe as np;
 pub enum VerifFrame {
     /// authentication message: oneof variant name (or "None"), numeric field, bool field, digest bytes
     Auth { kind: String, val: u32, flag: bool, digest: Vec<u8> },
+    /// the same authentication message, but through the actor's `handle` (dispatch of an inbound network message)
+    AuthHandle { kind: String, val: u32, flag: bool, digest: Vec<u8> },
     /// node message: "None", "Cast", "Call/timeout", "Call/no-timeout", "Reply"
     Node { kind: String },
     /// control message: "None" or the oneof variant name
@@ -315,6 +317,12 @@ pub async fn verif_session_step(
     match frame {
         VerifFrame::Auth { kind, val, flag, digest } => {
             session.handle_auth(&mut state, np::verif_auth_msg(&kind, val, flag, &digest), myself.clone()).await;
+        }
+        VerifFrame::AuthHandle { kind, val, flag, digest } => {
+            let nm = crate::protocol::NetworkMessage {
+                message: Some(crate::protocol::meta::network_message::Message::Auth(np::verif_auth_msg(&kind, val, flag, &digest))),
+            };
+            let _ = session.handle(myself.clone(), crate::node::NodeSessionMessage::MessageReceived(nm), &mut state).await;
         }
         VerifFrame::Node { kind } => {
             use node_protocol::node_message::Msg;
